@@ -18,7 +18,7 @@ func init() {
 }
 
 func ruleC14WaitBeforePost(c *Ctx) {
-	c.Doc("c14.wait-before-post", "execAndPostProcess: on every path from a successful exec() to the success return, wg.Wait() is executed first, then every post-processor of query.postProcessors in order (an error of one is returned); (*Query).Exec returns only through it")
+	c.Doc("c14.wait-before-post", "execAndPostProcess: wg.Wait() follows exec() on every path, also when exec failed (the calls it launched have completed when Exec returns); on the success path then every post-processor of query.postProcessors in order (an error of one is returned); (*Query).Exec returns only through it")
 	c.NotDecidedClause("C14: equality of ASYNC and synchronous values under arbitrary latencies; exactly-once per row beyond once-per-evaluation of the select item (the item is evaluated once per row: c02.one-per-row)")
 	f := c.P.Method(modPath, "Query", "execAndPostProcess")
 	if f == nil {
@@ -70,6 +70,25 @@ func ruleC14WaitBeforePost(c *Ctx) {
 	}
 	if n == 0 {
 		why = append(why, "no success path")
+	}
+	// the failure path of exec waits as well: the calls exec launched before it failed have completed when the error is returned
+	for _, p := range paths {
+		if p.Exit != "return" || len(p.Ret) != 2 || p.Ret[1].Nil {
+			continue
+		}
+		// the error is exec's own
+		if x := p.Ret[1].T; x == nil || x.Op != "ext" || !strings.HasSuffix(x.Args[0].Name, ".exec") {
+			continue
+		}
+		waited := false
+		for _, e := range p.Effects {
+			if e.Kind == "call" && strings.HasSuffix(e.Callee, "(*sync.WaitGroup).Wait") {
+				waited = true
+			}
+		}
+		if !waited {
+			why = append(why, "when exec fails the error is returned without waiting for the calls it had already launched: they are still running after Exec returned")
+		}
 	}
 	// the post-processor loop ranges over query.postProcessors and returns a post-processor's error
 	loopOK := false
@@ -898,5 +917,253 @@ func ruleC20OptionsShared(c *Ctx) {
 	}
 	if k < 4 {
 		c.Unknown("c20.options-shared", "Prepare/call-sites", "-", fmt.Sprintf("only %d call sites of Prepare found", k))
+	}
+}
+
+func init() {
+	register("C14", ruleC14JoinSidesAdopted)
+	register("C13", ruleC14JoinSidesAdopted)
+	register("C12", ruleC14JoinSidesAdopted)
+}
+
+// ruleC14JoinSidesAdopted: what the sides of a join launched belongs to the joining query.
+func ruleC14JoinSidesAdopted(c *Ctx) {
+	c.Doc("c14.join-sides-adopted", "join builder (BuildJoin): each side is built on a copy of the query; on every success path the copy's post-processors are appended to the query's and the copy's wait group is chained into the query's (query.wg.Add(1) before a goroutine that waits for the copy and then calls query.wg.Done) — otherwise the ASYNC/SPINASYNC calls of a derived table used as a join side are neither awaited nor resolved")
+	f := c.P.Func(modPath, "BuildJoin")
+	cq := c.P.Func(modPath, "CopyQuery")
+	if f == nil || cq == nil {
+		c.Unknown("c14.join-sides-adopted", "BuildJoin", "-", "anchor lost")
+		return
+	}
+	c.Fn("BuildJoin")
+	// the side copies
+	var sides []*ssa.Call
+	allInstrs(f, func(_ *ssa.BasicBlock, in ssa.Instruction) {
+		if call, ok := in.(*ssa.Call); ok && call.Common().StaticCallee() == cq {
+			sides = append(sides, call)
+		}
+	})
+	if len(sides) < 2 {
+		c.Unknown("c14.join-sides-adopted", "BuildJoin", c.P.Pos(f.Pos()), fmt.Sprintf("%d side copies found (2 expected)", len(sides)))
+		return
+	}
+	paths, err := WalkFunc(f, WalkCfg{MaxVisits: 1, MaxPaths: 6000})
+	if err != nil {
+		c.Unknown("c14.join-sides-adopted", "BuildJoin", c.P.Pos(f.Pos()), err.Error())
+		return
+	}
+	mentions := func(t *Term, side *ssa.Call, field string) bool {
+		return t != nil && t.Contains(func(x *Term) bool {
+			return x.Op == "field" && x.Name == field && len(x.Args) == 1 && x.Args[0].V == ssa.Value(side)
+		})
+	}
+	var why []string
+	n := 0
+	for _, p := range paths {
+		if p.Exit != "return" || len(p.Ret) != 1 || !p.Ret[0].Nil {
+			continue
+		}
+		n++
+		for i, side := range sides {
+			adopted, chained := false, false
+			for _, e := range p.Effects {
+				if e.Kind == "call" && e.Callee == "builtin:append" && len(e.Args) == 2 && strings.Contains(e.Args[0].String(), "(p:query).postProcessors") && mentions(e.Args[1], side, "postProcessors") {
+					adopted = true
+				}
+				if e.Kind == "go" {
+					if g, ok := e.Instr.(*ssa.Go); ok {
+						if mc, isMC := g.Call.Value.(*ssa.MakeClosure); isMC {
+							waits, done := false, false
+							allInstrs(mc.Fn.(*ssa.Function), func(_ *ssa.BasicBlock, in ssa.Instruction) {
+								ci, isCall := in.(ssa.CallInstruction)
+								if !isCall {
+									return
+								}
+								name := calleeName(ci.Common())
+								if strings.HasSuffix(name, "sync.WaitGroup).Wait") {
+									// which captured variable: the free variable bound to this side
+									at := NewTB().Of(ci.Common().Args[0]).String()
+									for bi, bnd := range mc.Bindings {
+										fvn := mc.Fn.(*ssa.Function).FreeVars[bi].Name()
+										if strings.Contains(at, "fv:"+fvn) || strings.Contains(at, "freevar:"+fvn) || strings.Contains(at, fvn) {
+											if bnd == ssa.Value(side) || cellHolds(bnd, side) {
+												waits = true
+											}
+										}
+									}
+								}
+								if strings.HasSuffix(name, "sync.WaitGroup).Done") {
+									done = true
+								}
+							})
+							if waits && done {
+								chained = true
+							}
+						}
+					}
+				}
+			}
+			if !adopted {
+				why = append(why, fmt.Sprintf("the post-processors of side %d are not handed to the query: an ASYNC column of a derived table on that side is never resolved", i+1))
+			}
+			if !chained {
+				why = append(why, fmt.Sprintf("the wait group of side %d is not chained into the query's: its outstanding calls are not awaited before Exec returns", i+1))
+			}
+		}
+	}
+	if n == 0 {
+		why = append(why, "no success path")
+	}
+	c.Check(len(why) == 0, "c14.join-sides-adopted", "BuildJoin", c.P.Pos(f.Pos()), fmt.Sprintf("%d success paths adopt both sides' post-processors and wait groups", n), strings.Join(uniq(why), "; "))
+}
+
+// cellHolds: the captured cell's only stores are the given value.
+func cellHolds(cell ssa.Value, v ssa.Value) bool {
+	al, ok := cell.(*ssa.Alloc)
+	if !ok || al.Referrers() == nil {
+		return false
+	}
+	n, all := 0, true
+	for _, r := range *al.Referrers() {
+		if st, isSt := r.(*ssa.Store); isSt && st.Addr == ssa.Value(al) {
+			n++
+			if st.Val != v {
+				all = false
+			}
+		}
+	}
+	return n > 0 && all
+}
+
+func init() {
+	register("C14", ruleC14NestedFailureWaits)
+	register("C13", ruleC14NestedFailureWaits)
+}
+
+// ruleC14NestedFailureWaits: a nested query that fails has finished what it launched.
+func ruleC14NestedFailureWaits(c *Ctx) {
+	c.Doc("c14.nested-failure-waits", "every site that runs a nested query with exec() (derived table, row-scoped subquery, EXISTS): on the path on which exec's error is returned, the nested query's wait group is awaited first — the ASYNC/SPINASYNC calls the nested query launched before it failed have completed when the error surfaces")
+	exec := c.P.Method(modPath, "Query", "exec")
+	if exec == nil {
+		c.Unknown("c14.nested-failure-waits", "(*Query).exec", "-", "anchor lost")
+		return
+	}
+	n := 0
+	for _, f := range c.P.ModFuncs {
+		if len(f.TypeArgs()) > 0 || f.Name() == "execAndPostProcess" {
+			continue
+		}
+		var sites []*ssa.Call
+		allInstrs(f, func(_ *ssa.BasicBlock, in ssa.Instruction) {
+			if call, ok := in.(*ssa.Call); ok && call.Common().StaticCallee() == exec {
+				sites = append(sites, call)
+			}
+		})
+		for _, site := range sites {
+			n++
+			key := c.P.funcKey(f) + "/nested-exec-failure"
+			paths, err := WalkFrom(f, site.Block(), nil, WalkCfg{MaxVisits: 1, MaxPaths: 4000, NoInline: true})
+			if err != nil {
+				c.Unknown("c14.nested-failure-waits", key, c.P.Pos(site.Pos()), err.Error())
+				continue
+			}
+			ok, why, k := true, "", 0
+			for _, p := range paths {
+				if p.Exit != "return" {
+					continue
+				}
+				failed := false
+				for key2, v := range p.Asg {
+					if x, isN := isNilTest(p.KeyTerm[key2]); isN && x.Op == "ext" && x.Name == "1" && x.Args[0].V == ssa.Value(site) && !isTrueC(v) {
+						failed = true
+					}
+				}
+				if !failed {
+					continue
+				}
+				k++
+				waited := false
+				seenSite := false
+				for _, e := range p.Effects {
+					if e.Instr == ssa.Instruction(site) {
+						seenSite = true
+					}
+					if seenSite && e.Kind == "call" && strings.HasSuffix(e.Callee, "(*sync.WaitGroup).Wait") && len(e.Args) == 1 && strings.Contains(e.Args[0].String(), ".wg") {
+						waited = true
+					}
+				}
+				if !waited {
+					ok, why = false, "the nested query's error is returned without awaiting the calls it had launched"
+				}
+			}
+			if k == 0 {
+				ok, why = false, "no failure path of the nested exec found"
+			}
+			c.Check(ok, "c14.nested-failure-waits", key, c.P.Pos(site.Pos()), fmt.Sprintf("%d failure paths await the nested wait group", k), why)
+		}
+	}
+	if n < 3 {
+		c.Unknown("c14.nested-failure-waits", "sites", "-", fmt.Sprintf("only %d nested exec sites found", n))
+	}
+}
+
+func init() { register("C14", ruleC14AwaitWaits); register("C13", ruleC14AwaitWaits) }
+
+// ruleC14AwaitWaits: AWAIT(expr) delivers a value that is complete.
+func ruleC14AwaitWaits(c *Ctx) {
+	c.Doc("c14.await-waits", "AWAIT: the post-processor that evaluates the argument (after the query's own wait) awaits the query's wait group again on its success path before it hands the value over — the argument itself may launch ASYNC calls (AWAIT(ASYNC.f(x))), which nobody else would wait for")
+	f := c.theFunc("strategy dispatch", "*sqlparser.FuncExpr", "FunExpr")
+	if f == nil {
+		c.Unknown("c14.await-waits", "FunExpr", "-", "anchor lost")
+		return
+	}
+	n := 0
+	for _, g := range withClosures(f) {
+		if g == f {
+			continue
+		}
+		evaluates := false
+		allInstrs(g, func(_ *ssa.BasicBlock, in ssa.Instruction) {
+			if call, ok := in.(*ssa.Call); ok && call.Common().StaticCallee() != nil && call.Common().StaticCallee().Name() == "FuncArgReader" {
+				evaluates = true
+			}
+		})
+		// the await post-processor: a func() error closure that evaluates the arguments
+		if !evaluates || g.Signature.Params().Len() != 0 || g.Signature.Results().Len() != 1 || g.Signature.Results().At(0).Type().String() != "error" {
+			continue
+		}
+		n++
+		key := c.P.funcKey(g)
+		paths, err := WalkFunc(g, WalkCfg{MaxVisits: 1, NoInline: true})
+		if err != nil {
+			c.Unknown("c14.await-waits", key, c.P.Pos(g.Pos()), err.Error())
+			continue
+		}
+		ok, why, k := true, "", 0
+		for _, p := range paths {
+			if p.Exit != "return" || len(p.Ret) != 1 || !p.Ret[0].Nil {
+				continue
+			}
+			k++
+			iEval, iWait := -1, -1
+			for i, e := range p.Effects {
+				if e.Kind == "call" && e.Callee == "FuncArgReader" {
+					iEval = i
+				}
+				if e.Kind == "call" && strings.HasSuffix(e.Callee, "(*sync.WaitGroup).Wait") {
+					iWait = i
+				}
+			}
+			if iEval < 0 || iWait < iEval {
+				ok, why = false, "the AWAIT post-processor hands its value over without awaiting the calls its argument launched: AWAIT(ASYNC.f(x)) yields NULL and races with the call"
+			}
+		}
+		if k == 0 {
+			ok, why = false, "no success path"
+		}
+		c.Check(ok, "c14.await-waits", key, c.P.Pos(g.Pos()), fmt.Sprintf("%d success paths: evaluate, then wait", k), why)
+	}
+	if n == 0 {
+		c.Unknown("c14.await-waits", "FunExpr", c.P.Pos(f.Pos()), "anchor lost: no post-processor closure that evaluates the arguments")
 	}
 }
